@@ -261,7 +261,7 @@ func Expr(t *rapid.T, params []Param, multiLine bool) string {
 	}
 	seps := []string{" && ", " || ", " &&  "}
 	if multiLine {
-		seps = append(seps, " &&\n  ", "\n    || ", " &&\n\n  ", "\n&& ")
+		seps = append(seps, " &&\n  ", "\n    || ", " &&\n\n  ", "\n&& ", " &&\r\n  ", "\r\n|| ")
 	}
 	s := parts[0]
 	for _, p := range parts[1:] {
